@@ -159,7 +159,7 @@ Section Prune.
       intros top rest g b k. cbn [events_c]. cbn [app ctf_run ctf_step ct_step].
       cbn [t_stack t_gaslimit t_started st].
       set (new := CF (ci_typ i) (ci_from i) (Some (ci_to i)) (ci_input i) (ci_gas i) 0 [] ""%string [] []
-                     (Some (match ci_value i with Some v => v | None => 0 end))).
+                     (Some (match ci_value i with Some v => v | None => 0 end)) []).
       change ({| o_frame := new; o_marker := 0 |}) with (of new 0).
       change ({| t_stack := of new 0 :: top :: rest; t_gaslimit := g; t_started := b |}) with (st (of new 0 :: top :: rest) g b).
       rewrite <- !app_assoc. rewrite (fruns_aspects pre Fpre).
